@@ -559,6 +559,16 @@ Status findSequencesOnDisk(FileSequences &seqs,
 
         if (pad.empty()) {
             fs.setFrameSet(FrameSet());
+        } else {
+            // The string only carried the components to the constructor.
+            // A basename that itself contains padding characters or
+            // range-like text is split differently when it is parsed
+            // again, so force the components found while scanning.
+            fs.setDirname(root);
+            fs.setBasename(name);
+            fs.setExt(ext);
+            fs.setPadding(pad);
+            fs.setFrameRange(frange);
         }
 
         // Save the FileSequence
